@@ -50,11 +50,12 @@ PLAN = {
     # exhaustive universes (name, constants), simulated derivations, mutations per text, e2e sample
     "quick": dict(exh=[("narrow-neg", dict(Wide="FALSE", KeyDepth=1, Neg=ALLNEG, Start="line")),
                        ("wide-pos", dict(Wide="TRUE", KeyDepth=1, Neg="{}", Start="line"))],
-                  sim=dict(num=250, consts=dict(Wide="TRUE", KeyDepth=4, Neg='{"garbage", "bad"}', Start="deep")),
+                  sim=dict(num=2000, consts=dict(Wide="TRUE", KeyDepth=4, Neg='{"garbage", "bad"}', Start="deep")),
                   nmut=3, ne2e=150),
-    "thorough": dict(exh=[("wide-neg-depth2", dict(Wide="TRUE", KeyDepth=2, Neg=ALLNEG, Start="line"))],
-                     sim=dict(num=6000, consts=dict(Wide="TRUE", KeyDepth=4, Neg='{"garbage", "bad"}', Start="deep")),
-                     nmut=12, ne2e=1500),
+    "thorough": dict(exh=[("wide-neg-depth2", dict(Wide="TRUE", KeyDepth=2, Neg=ALLNEG, Start="line")),
+                          ("narrow-pos-depth3", dict(Wide="FALSE", KeyDepth=3, Neg="{}", Start="line"))],
+                     sim=dict(num=60000, consts=dict(Wide="TRUE", KeyDepth=4, Neg='{"garbage", "bad"}', Start="deep")),
+                     nmut=10, ne2e=1500),
 }
 
 
@@ -129,7 +130,7 @@ def fn(ck, a):
                 raise RuntimeError("CmdGrammar produced no sentence")
         ck.cov["exhaustive"] = all(x["complete"] for x in ck.cov["tlc_runs"]) and bool(plan["exh"])
         if plan["sim"]:
-            r = tlc.run("CmdGrammar", GEN_CFG.format(**plan["sim"]["consts"]), workers=8, timeout=3000,
+            r = tlc.run("CmdGrammar", GEN_CFG.format(**plan["sim"]["consts"]), workers=1, timeout=3000,
                         simulate=f"num={plan['sim']['num']}", depth=400, seed=ck.seed + 11,
                         env={"JAVA_TOOL_OPTIONS": "-Xmx4g"})
             ck.add_tlc("simulate:deep", r, exhaustive=False)
@@ -141,7 +142,7 @@ def fn(ck, a):
                 raise RuntimeError(f"TLC -simulate failed on CmdGrammar: {r.error or r.out[-800:]}")
             else:
                 take(r, "simulate")
-        S = [sents[t] for t in order]
+        S = [sents[t] for t in sorted(order)]      # TLC's workers print in any order
 
         # 2. spec -> code
         nmut = plan["nmut"]
@@ -191,7 +192,10 @@ def fn(ck, a):
             for p_ in r["prints"]:
                 if p_ and p_[0] == "VIOL":
                     i = part[p_[1] - 1]
-                    viols.setdefault((p_[2], _feature(S[i])), []).append(i)
+                    act = _feature(S[i])
+                    if p_[2] == "C08.TotalUnderMutation":
+                        act = "mutant:" + [m for m in S[i]["mut"] if m not in ("parsed", "bad")][0]
+                    viols.setdefault((p_[2], act), []).append(i)
                 elif p_ and p_[0] == "DONE":
                     done += 1
         if done != len(S):
